@@ -106,6 +106,7 @@ func runC10(c *core.Ctx) {
 	c.RuleDoc("R10.3", "memoised info comes from the source")
 	c.RuleDoc("R10.4", "directory handle lists the source")
 	c.RuleDoc("R10.5", "a copy that was not written and closed successfully does not stay in the cache")
+	c.RuleDoc("R10.9", "the fill reads a freshly opened (or rewound) source handle, it is never retried on a handle already read from")
 	c.RuleDoc("R10.8", "the cache's directory handle can be rewound with Seek like the source's")
 	c.RuleDoc("R10.7", "a partial copy that could not be removed stays marked until it is removed")
 	c.RuleDoc("R10.6", "the fill does not take a short count (or one Read) for the whole file")
@@ -154,11 +155,13 @@ func runC10(c *core.Ctx) {
 		}
 		// R10.6: the copy into the cache does not take a short count for the end of the file
 		readDiscipline(c, p, "R10.6", pkgFuncs(p, "cache"))
-		r10NeverServeMark(c, p, sh)
+		r10NeverServeMark(c, p, sh, "R10.7")
+		r11FillOncePerHandle(c, p, sh, "R10.9")
 	}
 	c.Floor("R10.5", 2)
 	c.Floor("R10.7", 2)
 	c.Floor("R10.8", 1)
+	c.Floor("R10.9", 1)
 	c.Floor("R10.1", 1)
 	c.Floor("R10.2", 1)
 	c.Floor("R10.3", 1)
@@ -339,13 +342,15 @@ func r10Dir(c *core.Ctx, p *load.Program, sh *cacheShape) {
 
 func runC11(c *core.Ctx) {
 	runFixtures(c, "drop", "locks")
-	c.Explain("Structural clauses of C11 decided from source: (R11.1) in the cache FS's Open, the cache look-up, the source open and the fill run after Lock(name) on the per-path lock and before its release, Lock and Unlock use the same key, the Unlock is deferred (or on every exit), the fill function has no caller outside that region, and the per-path lock obtains the mutex of a key with one atomic LoadOrStore; (R11.2) on every path on which the cache file was created and the fill then fails, the partial file is invalidated (removed from the cache FS) before the error is returned; (R11.3) the Close error of the cache file opened for writing takes part in the fill's result. (R11.4) the fill (and Open around it) reads no slice-typed field of the file system value: the lock held is per path, so a scratch buffer shared by all fills would be written by two fills at once. (R11.5) the dropped-error analysis over the fill function: the error of every step (creating directories, opening the cache file, the copy) reaches the fill's result on every path where it is non-nil; (R11.6 = R10.2) the handle returned after a fill was rewound successfully or re-opened from the cache. NOT claimed: interleavings of concurrent opens (only the lock discipline), a fault at every read/write index, cache stores that cannot remove files.")
+	c.Explain("Structural clauses of C11 decided from source: (R11.1) in the cache FS's Open, the cache look-up, the source open and the fill run after Lock(name) on the per-path lock and before its release, Lock and Unlock use the same key, the Unlock is deferred (or on every exit), the fill function has no caller outside that region, and the per-path lock obtains the mutex of a key with one atomic LoadOrStore; (R11.2) on every path on which the cache file was created and the fill then fails, the partial file is invalidated (removed from the cache FS) before the error is returned; (R11.3) the Close error of the cache file opened for writing takes part in the fill's result. (R11.4) the fill (and Open around it) reads no slice-typed field of the file system value: the lock held is per path, so a scratch buffer shared by all fills would be written by two fills at once. (R11.5) the dropped-error analysis over the fill function: the error of every step (creating directories, opening the cache file, the copy) reaches the fill's result on every path where it is non-nil; (R11.6 = R10.2) the handle returned after a fill was rewound successfully or re-opened from the cache. (R11.7 = R10.7) the never-serve mark of a partial file that could not be removed is consulted before the cache look-up and dropped only after Remove answered nil or ErrNotExist; (R11.8) on every path through Open the fill is called at most once per freshly opened (or rewound) source handle. NOT claimed: interleavings of concurrent opens (only the lock discipline), a fault at every read/write index, cache stores that cannot remove files.")
 	c.Assume("A2: sync.Map.LoadOrStore is atomic; sync.Mutex semantics", "a cache store without RemoveFS cannot invalidate a partial file (stated limitation)")
 	c.RuleDoc("R11.1", "look-up + fill under the per-path lock")
 	c.RuleDoc("R11.2", "failed fill invalidates the partial cache file")
 	c.RuleDoc("R11.3", "Close error of the written cache file is not discarded")
 	c.RuleDoc("R11.4", "fills of different paths share no byte buffer")
 	c.RuleDoc("R11.5", "no error of a step of the fill is dropped")
+	c.RuleDoc("R11.7", "a partial copy that could not be removed stays marked until it is removed (= R10.7)")
+	c.RuleDoc("R11.8", "a failed fill is never retried on the handle it already read from")
 	c.RuleDoc("R11.6", "the handle returned after a fill starts at offset 0 (= R10.2)")
 	for _, p := range c.Progs {
 		c.SetProg(p)
@@ -452,6 +457,8 @@ func runC11(c *core.Ctx) {
 		r11Fill(c, p, sh, "R11.2", "R11.3")
 		r11NoSharedBuffer(c, p, sh)
 		r10Rewind(c, p, sh, "R11.6")
+		r10NeverServeMark(c, p, sh, "R11.7")
+		r11FillOncePerHandle(c, p, sh, "R11.8")
 		// R11.5: no error of a step of the fill is dropped (a shadowed err in the copy branch loses the read or
 		// write fault: the fill reports success and the truncated file stays)
 		for _, f := range []*ssa.Function{sh.copy} {
@@ -481,6 +488,8 @@ func runC11(c *core.Ctx) {
 	c.Floor("R11.1", 2)
 	c.Floor("R11.2", 1)
 	c.Floor("R11.3", 1)
+	c.Floor("R11.7", 2)
+	c.Floor("R11.8", 1)
 }
 
 func r11Fill(c *core.Ctx, p *load.Program, sh *cacheShape, ruleInvalidate, ruleClose string) {
@@ -648,7 +657,7 @@ func r11NoSharedBuffer(c *core.Ctx, p *load.Program, sh *cacheShape) {
 // only on paths on which the cache file was removed successfully (Remove answered nil or ErrNotExist). A mark dropped
 // before the removal is known to have worked lets the next Open find the leftover in the cache and serve the
 // truncated bytes for ever.
-func r10NeverServeMark(c *core.Ctx, p *load.Program, sh *cacheShape) {
+func r10NeverServeMark(c *core.Ctx, p *load.Program, sh *cacheShape, rule string) {
 	tk := typeKey(sh.named)
 	syncMapField := func(v ssa.Value) string {
 		fa, ok := v.(*ssa.FieldAddr)
@@ -692,7 +701,7 @@ func r10NeverServeMark(c *core.Ctx, p *load.Program, sh *cacheShape) {
 			lookup = ins
 		}
 	})
-	c.Check(load != nil && lookup != nil && ssax.Dominates(load, lookup), "R10.7", tk+".Open|mark-consulted-before-cache", p.Pos(fn.Pos()), "the never-serve mark is looked up before the cache is",
+	c.Check(load != nil && lookup != nil && ssax.Dominates(load, lookup), rule, tk+".Open|mark-consulted-before-cache", p.Pos(fn.Pos()), "the never-serve mark is looked up before the cache is",
 		fmt.Sprintf("%s.Open does not look the name up in the %s table before it opens the cache file: a partial copy that could not be removed is served as if it were complete", tk, mark))
 	// (b) removed only after a successful removal of the file
 	var isCalls []*ssa.Call
@@ -745,12 +754,60 @@ func r10NeverServeMark(c *core.Ctx, p *load.Program, sh *cacheShape) {
 	key := tk + ".Open|mark-dropped-only-after-removal"
 	switch {
 	case !complete:
-		c.Unknown("R10.7", key, p.Pos(fn.Pos()), "path enumeration exceeded its cap")
+		c.Unknown(rule, key, p.Pos(fn.Pos()), "path enumeration exceeded its cap")
 	case dels == 0:
-		c.OK("R10.7", key, p.Pos(fn.Pos()), "Open never takes a mark out of the table")
+		c.OK(rule, key, p.Pos(fn.Pos()), "Open never takes a mark out of the table")
 	case bad != "":
-		c.Bad("R10.7", key, bad, fmt.Sprintf("%s.Open takes the name out of the %s table at %s on a path on which the leftover cache file was not removed successfully (no Remove before, or its error is neither nil nor ErrNotExist): the retry is still served from the source, but the next Open finds no mark, finds the leftover in the cache and serves the truncated bytes", tk, mark, bad))
+		c.Bad(rule, key, bad, fmt.Sprintf("%s.Open takes the name out of the %s table at %s on a path on which the leftover cache file was not removed successfully (no Remove before, or its error is neither nil nor ErrNotExist): the retry is still served from the source, but the next Open finds no mark, finds the leftover in the cache and serves the truncated bytes", tk, mark, bad))
 	default:
-		c.OK("R10.7", key, p.Pos(fn.Pos()), "the mark is dropped only after Remove answered nil or ErrNotExist")
+		c.OK(rule, key, p.Pos(fn.Pos()), "the mark is dropped only after Remove answered nil or ErrNotExist")
+	}
+}
+
+// r11FillOncePerHandle (R11.8 / R10.9): on every path through Open the fill is called at most once with the handle
+// it copies from, unless that handle was rewound successfully in between. A retry of a failed fill on the same
+// handle copies only what is left behind the handle's offset: it succeeds, the cache keeps the tail of the file, and
+// every later Open is served that tail.
+func r11FillOncePerHandle(c *core.Ctx, p *load.Program, sh *cacheShape, rule string) {
+	fn := sh.open
+	tk := typeKey(sh.named)
+	bad := ""
+	calls := 0
+	complete := ssax.EnumPaths(fn, fn.Blocks[0], 0, ssax.NewPathState(), ssax.PathHooks{
+		Instr: func(ps *ssax.PathState, ins ssa.Instruction) {
+			cl, ok := ins.(*ssa.Call)
+			if !ok {
+				return
+			}
+			callee := ssax.StaticCallee(cl)
+			switch {
+			case callee == sh.copy:
+				calls++
+				if ps.Counts["filled"] >= 1 && bad == "" {
+					bad = p.Pos(cl.Pos())
+				}
+				ps.Counts["filled"]++
+			case fieldInvoke(ins, sh.named, sh.srcField, "Open") != nil:
+				ps.Counts["filled"] = 0
+			case callee != nil && callee.Name() == "SeekFile" && pkgPathOf(callee) == mod:
+				// a rewind: trusted only when its error is tested; R10.2 judges that part
+				if len(cl.Call.Args) == 3 {
+					if k, isK := ssax.ConstInt(cl.Call.Args[1]); isK && k == 0 {
+						ps.Counts["filled"] = 0
+					}
+				}
+			}
+		},
+	})
+	key := tk + ".Open|fill-once-per-handle"
+	switch {
+	case !complete:
+		c.Unknown(rule, key, p.Pos(fn.Pos()), "path enumeration exceeded its cap")
+	case calls == 0:
+		c.Hard("anchor: %s.Open does not call the fill", tk)
+	case bad != "":
+		c.Bad(rule, key, bad, fmt.Sprintf("%s.Open calls the fill again at %s on a handle a previous fill already read from, without re-opening or rewinding it: the retry copies only the bytes behind the handle's offset and succeeds — the cache keeps the tail of the file and serves it to every later Open", tk, bad))
+	default:
+		c.OK(rule, key, p.Pos(fn.Pos()), "every fill reads a handle that was just opened from the source (or rewound)")
 	}
 }
